@@ -8,10 +8,11 @@ from . import common as C
 from . import hist, worklog
 from .gitsim import Sim
 
-GEN_FILES = ["GenWorkLog"]
+GEN_FILES = ["GenWorkLog", "GenCheckpoint"]
 DRIVERS = ["worklog"]
 PROPERTY_FILES = ["C14"]
-THEOREMS = ["C14_empty_checkpoint_noop", "C14_prune_irrelevant", "C14_nonvacuous"]
+THEOREMS = ["C14_empty_checkpoint_noop", "C14_prune_irrelevant", "C14_repeat_records_nothing",
+            "C14_human_only_entry_is_inert", "C14_nonvacuous"]
 CLAIM = {
     "text": "Partial proof. Theorems (closed, for all working logs): a checkpoint that recorded nothing does not change what "
             "the commit hook reads back (C14_empty_checkpoint_noop); pruning older char attributions, done on every append, "
@@ -80,7 +81,7 @@ def scenario(args):
 
 
 def run(ctx):
-    n = 40 if ctx.tier == "quick" else 800
+    n = 80 if ctx.tier == "quick" else 1200
     r = ctx.rng
     items = []
     for i in range(n):
